@@ -266,3 +266,62 @@ func (l *CountedLoop) Iterate(atom func(ssa.Value) (int64, bool), max int, visit
 	}
 	return true
 }
+
+// IterateTo is Iterate for loops whose test is a chain of conditions (`i < n && i <= m`): from the header the
+// evaluable branch conditions are followed block by block until the block of site is reached (the body executes
+// for this value) or control leaves the chain (the loop ends).
+func (l *CountedLoop) IterateTo(site *ssa.BasicBlock, atom func(ssa.Value) (int64, bool), max int, visit func(i int64)) bool {
+	cur, ok := EvalInt(l.Init, atom)
+	if !ok {
+		return false
+	}
+	at := func(v ssa.Value) (int64, bool) {
+		if v == ssa.Value(l.Phi) {
+			return cur, true
+		}
+		return atom(v)
+	}
+	header := l.Phi.Block()
+	for n := 0; n < max; n++ {
+		b := header
+		reached := false
+		for steps := 0; steps < 16; steps++ {
+			if b == site {
+				reached = true
+				break
+			}
+			if len(b.Instrs) == 0 {
+				return false
+			}
+			switch last := b.Instrs[len(b.Instrs)-1].(type) {
+			case *ssa.If:
+				c, ok := EvalCond(last.Cond, at)
+				if !ok {
+					return false
+				}
+				if c {
+					b = b.Succs[0]
+				} else {
+					b = b.Succs[1]
+				}
+			case *ssa.Jump:
+				b = b.Succs[0]
+			default:
+				steps = 99
+			}
+			if b == header || !reaches(b, header, map[*ssa.BasicBlock]bool{}) {
+				break // back at the header without passing the site, or out of the loop
+			}
+		}
+		if !reached {
+			return true
+		}
+		visit(cur)
+		nx, ok := EvalInt(l.Step, at)
+		if !ok {
+			return false
+		}
+		cur = nx
+	}
+	return true
+}
